@@ -23,8 +23,8 @@ ASSUMPTIONS = [
     "rule patterns are read through the regex-level reference R1 (vf/ref/rulelang.py); the implicit rule texts themselves are taken from annet.implicit._implicit_tree (data)",
     "reference completion adds, with a default block, the defaults nested in it (what idempotence requires)",
 ]
-FLOORS = {"quick": {"completions": 2000, "defaults_added": 2000, "defaults_suppressed": 1000, "patches_checked": 1500, "front_runs": 150},
-          "thorough": {"completions": 100000, "defaults_added": 100000, "defaults_suppressed": 50000, "patches_checked": 70000, "front_runs": 7000}}
+FLOORS = {"quick": {"completions": 2000, "defaults_added": 2000, "defaults_suppressed": 1000, "patches_checked": 1500, "front_runs": 150, "front_safe_runs": 150},
+          "thorough": {"completions": 100000, "defaults_added": 100000, "defaults_suppressed": 50000, "patches_checked": 70000, "front_runs": 7000, "front_safe_runs": 7000}}
 MODELS = [("Huawei CE6870", ()), ("Huawei NE40E-X8", ()), ("Huawei Quidway S5300", ()), ("Arista DCS-7050", ()),
           ("Cisco Nexus 3132", ()), ("Cisco Nexus 3432", ()), ("Cisco Nexus 9316", ()), ("Cisco Nexus N9K-C9364", ()), ("Cisco Nexus 9504", ("spine1",)),
           ("Cisco Nexus 9504", ()), ("Cisco Nexus 5548", ()), ("Cisco Catalyst 2960", ()), ("Cisco Catalyst 3560", ()), ("Cisco Catalyst 3650", ()), ("Cisco Catalyst 6500", ())]
@@ -314,10 +314,61 @@ def check_front(seed, acc):
             return
 
 
+def check_front_safe(seed, acc):
+    """--acl-safe with implicit completion: the safe configuration is completed from the safe generators' output only"""
+    from annet.generators import GeneratorError
+    from annet.vendors import registry_connector
+    from vf import harness_gen as H
+    rng = random.Random(seed)
+    model, tags = rng.choice([m for m in MODELS if not m[0].startswith("Huawei CE")])
+    dev = H.FakeDevice(Dev(model).hw)
+    dev.tags = list(tags)
+    rules = rules_of(dev)
+    v = registry_connector.get().match(dev.hw)
+    fmt = v.make_formatter()
+    t = [] if rng.random() < 0.3 else gen_tree(rng, rules)
+    u_unsafe = gen_tree(rng, rules)
+    u_safe = [x for x in gen_tree(rng, rules) if x[0] not in {r for r, _ in u_unsafe}]  # the two generators own different top-level rows
+    w = {"front": "safe", "seed": seed, "model": model, "tags": list(tags), "tree": t, "unsafe_output": u_unsafe, "safe_output": u_safe}
+    acl_u = "\n".join(sorted({r for r, _ in u_unsafe})) or "nothing"
+    acl_s = "\n".join(sorted({r for r, _ in u_safe})) or "nothing"
+
+    def block_acl(tree):
+        return "\n".join("%s\n    ~ %%global" % r.replace("*", "\\*") for r, _ in tree) or "nothing"
+    g_u = H.make_partial("GenUnsafe", v.NAME, block_acl(u_unsafe), H.tree_runner(u_unsafe))
+    g_s = H.make_partial("GenSafe", v.NAME, block_acl(u_safe), H.tree_runner(u_safe), acl_safe_text=block_acl(u_safe))
+    try:
+        res = H.old_new(dev, [g_u, g_s], fmt.join(unplain(t)), add_implicit=True, acl_safe=True, no_acl_exclusive=True)
+        if res.err:
+            raise res.err
+    except GeneratorError:
+        acc.count("front_safe_skipped")
+        return
+    except Exception:
+        acc.count("front_safe_skipped_exception")
+        return
+    acc.count("front_safe_runs")
+    got = plain(res.safe_new)
+    top_safe = {r for r, _ in u_safe}
+    exp_full = merge(u_safe, ref_implicit(u_safe, rules))
+    from vf.ref import rulelang as Rl
+    # the safe ACL lists the safe generator's own top-level rows as patterns (a pattern also covers rows that continue it) and everything below them
+    exp = [x for x in exp_full if any(Rl.match(r, x[0]) is not None for r in top_safe if "*" not in r) or x[0] in top_safe]
+    acc.case(["front-safe", model, t, u_unsafe, u_safe], nontrivial=bool(u_unsafe) and bool(u_safe))
+    if sorted_tree(got) != sorted_tree(exp):
+        leaked = sorted(r for r, _ in got if r not in {x[0] for x in exp})
+        acc.violation("C17/front-end-safe-config-not-completed-from-safe-output",
+                      "with --acl-safe the safe configuration is not the safe generators' output completed with its own implicit defaults (lines of other generators leak in, or defaults are missing)",
+                      dict(w, safe_new=sorted_tree(got), expected=sorted_tree(exp), leaked_top_level_rows=leaked))
+
+
 def run_shard(spec, acc):
     if spec["mode"] == "replay":
         w = spec["witness"]
-        (check_front if w.get("front") else check_case)(w["seed"], acc)
+        if w.get("front") == "safe":
+            check_front_safe(w["seed"], acc)
+        else:
+            (check_front if w.get("front") else check_case)(w["seed"], acc)
         return
     tier, k, n = spec["tier"], spec["shard"], spec["nshards"]
     total = 3000 if tier == "quick" else 120000
@@ -328,3 +379,5 @@ def run_shard(spec, acc):
             acc.sample({k2: w[k2] for k2 in ("model", "tags", "tree")})
         if j % 8 == 0:
             check_front(rng.randrange(1 << 48), acc)
+        if j % 8 == 4:
+            check_front_safe(rng.randrange(1 << 48), acc)
